@@ -70,6 +70,16 @@ func extractionSchema(client bool) *Schema {
 		optionalField(withOpt(field("age", "int32"), "sebuf.http.nullable", true), 1), field("label", "string"))
 	profile["oneof_decl"] = []any{M{"name": "_nick"}, M{"name": "_age"}}
 	addMessage(f, profile)
+	// empty_behavior: one field per documented behaviour next to an un-annotated message field
+	addMessage(f, message("Empties",
+		withOpt(msgField("keep", ".ext.v1.Note"), "sebuf.http.empty_behavior", "EMPTY_BEHAVIOR_PRESERVE"),
+		withOpt(msgField("nul", ".ext.v1.Note"), "sebuf.http.empty_behavior", "EMPTY_BEHAVIOR_NULL"),
+		withOpt(msgField("omit", ".ext.v1.Note"), "sebuf.http.empty_behavior", "EMPTY_BEHAVIOR_OMIT"),
+		msgField("plain", ".ext.v1.Note"), field("label", "string")))
+	// flatten: one message with a prefixed and one with an unprefixed flattened child
+	addMessage(f, message("Addr", field("street", "string"), field("city", "string")))
+	addMessage(f, message("FlatP", field("id", "string"), withOpt(withOpt(msgField("home", ".ext.v1.Addr"), "sebuf.http.flatten", true), "sebuf.http.flatten_prefix", "home_")))
+	addMessage(f, message("FlatB", field("id", "string"), withOpt(msgField("addr", ".ext.v1.Addr"), "sebuf.http.flatten", true)))
 	hdr := func(name, typ, format string, required bool) M {
 		h := M{"name": name, "type": typ, "required": required}
 		if format != "" {
